@@ -330,7 +330,7 @@ def _one(ctx, facts, f, cfg, soft):
         done = sum(1 for o in obs if o.get('status') == 'proved') + n_ok
         r['ok'] += done
         ctx.discharged += done
-        if len(obs) < 4:
+        if len(obs) < 2:     # 5 on the pinned tree; merged arms need fewer checked additions, an analysis that saw nothing has none
             ctx.violation('C14.a', '<floor>', 'obligations', 'only %d obligations generated for the conversion, expected 5' % len(obs), kind='below-floor')
         # ---------------- C14.b ----------------------------------------------------
         rid = 'C14.b'
@@ -340,10 +340,11 @@ def _one(ctx, facts, f, cfg, soft):
             if not isinstance(a, Int):
                 continue
             lo, hi = p['C'].bounds(a.e)
-            old = seen.get(p['at'])
-            seen[p['at']] = (min(lo, old[0]) if old and lo is not None and old[0] is not None else lo, max(hi, old[1]) if old and hi is not None and old[1] is not None else hi) if old else (lo, hi)
+            sk = (p.get('bb'), p['at'])     # two copies of one source line (a helper spliced in twice) are two sites
+            old = seen.get(sk)
+            seen[sk] = (min(lo, old[0]) if old and lo is not None and old[0] is not None else lo, max(hi, old[1]) if old and hi is not None and old[1] is not None else hi) if old else (lo, hi)
         labels = 0
-        for at, (lo, hi) in sorted(seen.items()):
+        for (bb_, at), (lo, hi) in sorted(seen.items(), key=str):
             if (lo, hi) == (0, 0):
                 ctx.instance(rid, 'push at %s writes the root terminator 0' % at, ok=True, site=at)
                 continue
@@ -377,4 +378,4 @@ def _one(ctx, facts, f, cfg, soft):
                         ctx.violation(rid, FN, 'total-size', 'the conversion can return Ok with %s bytes in the output buffer; the documented wire limit is %d' % (hi if hi is not None else 'unboundedly many', TOTAL_MAX), site=f['at'], config=cfg)
         if oks == 0:
             ctx.violation(rid, FN, 'no-ok-case', 'no Ok summary case with a tracked output length', kind='undecided', config=cfg)
-        ctx.sample({'config': cfg, 'relaxing_join': soft, 'obligations': len(obs), 'status': dict(e4.counts()), 'push_ranges': {k: list(v) for k, v in seen.items()}})
+        ctx.sample({'config': cfg, 'relaxing_join': soft, 'obligations': len(obs), 'status': dict(e4.counts()), 'push_ranges': {'bb%s:%s' % k: list(v) for k, v in seen.items()}})
